@@ -189,7 +189,7 @@ def gen_partial():
     need(mcb >= 64, "MAX_COEFFICIENT_BITS implausibly small")
     guards = [n for n in ast.walk(tree) if isinstance(n, ast.If) and ast.unparse(n.test) == "value.bit_length() > MAX_COEFFICIENT_BITS"]
     need(len(guards) == 1 and ast.unparse(guards[0].body[-1]) == "raise DeferredCycle()" and not guards[0].orelse, "expand(): the coefficient guard changed")
-    out += f"(* deferred.py: MAX_COEFFICIENT_BITS *)\nDefinition max_coefficient_bits : nat := {mcb}%nat.\n\n"
+    out += f"(* deferred.py: MAX_COEFFICIENT_BITS *)\nDefinition max_coefficient_bits : N := {mcb}%N.\n\n"
     df = find_class(tree, "Deferred")
     dump_eq(find_def(df, "_wait"), "def _wait(self):\n    if self.settled:\n        return self.value\n    else:\n        self.value = self.fn()\n"
             "        self.settled = True\n        return self.value", "Deferred._wait")
